@@ -1,11 +1,15 @@
 #!/bin/bash
-# tools/try_mutant.sh <patch.diff> <check id>...   applies a seeded change to /repo, runs the checks (quick), reverts.
+# tools/try_mutant.sh <patch.diff> <check id>...
+# Applies a seeded change in a scratch worktree of /repo's HEAD and runs the checks (quick tier) against that tree
+# (VERIF_REPO), so that /repo itself stays untouched; the worktree is removed afterwards.
+# (Equivalent to: git -C /repo apply <patch>; ./check <id>; git -C /repo checkout -- .)
 set -u
 patch="$1"; shift
-cd /repo || exit 2
-if [ -n "$(git status --porcelain)" ]; then echo "repo not clean"; exit 2; fi
-git apply "$patch" || { echo "patch does not apply"; exit 2; }
+wt=/tmp/mutwt/$$
+mkdir -p /tmp/mutwt
+git -C /repo worktree add -q --detach $wt HEAD || exit 2
+( cd $wt && git apply --exclude='MUTANT/*' "$patch" ) || { echo "patch does not apply"; git -C /repo worktree remove --force $wt; exit 2; }
 for id in "$@"; do
-  ( cd /verif && timeout 2400 ./check "$id" --tier quick > /tmp/mutrun_$id.log 2>&1; echo "$id exit=$? $(grep -c '^VIOLATION' /tmp/mutrun_$id.log) violations; $(grep -m1 '^VIOLATION\|^INCONCLUSIVE' /tmp/mutrun_$id.log | cut -c1-220)" )
+  ( cd /verif && VERIF_REPO=$wt VERIF_EVIDENCE_DIR=/tmp/mutwt/ev$$ timeout 3000 ./check "$id" --tier quick > /tmp/mutrun_$id.$$.log 2>&1; echo "$id exit=$? $(grep -c '^VIOLATION' /tmp/mutrun_$id.$$.log) violations; $(grep -m1 '^VIOLATION\|^INCONCLUSIVE' /tmp/mutrun_$id.$$.log | cut -c1-220)" )
 done
-git -C /repo checkout -- . ; git -C /repo status --porcelain | head -3
+git -C /repo worktree remove --force $wt; rm -rf /tmp/mutwt/ev$$
